@@ -131,7 +131,8 @@ Definition chk_C02 (c o : value) : bool :=
             existsb (fun o => match o with Construct => true | _ => false end) ops in
           if negb dom then true
           else
-            let body := firstn (Z.to_nat n) (skipn (Z.to_nat headlen + 4) fed) in
+            let after := skipn (Z.to_nat headlen + 4) fed in
+            let body := if blen after <=? n then after else firstn (Z.to_nat n) after in      (* = firstn n after, without counting to a huge n *)
             let l := dec_log o in
             negb (existsb is_bad l) &&
             Nat.eqb (count is_headers l) 1 &&
